@@ -7,6 +7,7 @@ Parses the Python source with `ast` (never imports it) and renders
    expression over the three library and the three file version components),
  * the mode dispatch of File._check_header (which gate function runs for which mode letter),
    the format test, and the id threshold tuple with its comparison operator,
+ * File._create_header: which `_set_<x>` run in which order, what each writes, whether it keeps an existing value,
  * the shape of File.__init__: the default of `mode` (also of File.open, and that open hands it on), the guards in
    front of the open (condition over mode / os.path.exists / isfile / getsize == 0, whether the mode is validated
    first, the exception), the create-or-open condition, the letter the create branch rebinds `mode` to, that the
@@ -400,6 +401,71 @@ def _extract_init(cls):
             "create_cond": create_cond, "create_mode": create_mode, "tail": tail}
 
 
+# ---- File._create_header ---------------------------------------------------------------------
+
+HEADER_ATTR = {"format": ".format", "version": ".version", "id": ".id"}
+
+
+def _mentions(node, pred):
+    return any(pred(x) for x in ast.walk(node))
+
+
+def _extract_create_header(cls):
+    """`_create_header` = a sequence of `self._set_<x>()`; each `_set_<x>` = optional `if self._root.get_attr(<a>):
+    return`, then `self._root.set_attr(<a>, <value>)` with the value built from FILE_FORMAT / HDF_FF_VERSION /
+    util.create_id() -> [(attribute, keeps an existing value)] in call order"""
+    fn = _func(cls.body, "_create_header", "class File")
+    slf = fn.args.args[0].arg
+    steps = []
+    for st in _strip_doc(fn.body):
+        if not (isinstance(st, ast.Expr) and isinstance(st.value, ast.Call) and isinstance(st.value.func, ast.Attribute)
+                and _is_name(st.value.func.value, slf) and not st.value.args and not st.value.keywords):
+            raise ExtractError("_create_header: a statement is not `self._set_<x>()`")
+        sub = _func(cls.body, st.value.func.attr, "class File")
+        sslf = sub.args.args[0].arg
+        body = _strip_doc(sub.body)
+        keep_attr = None
+        k = 0
+
+        def root_call(n, meth):
+            return (isinstance(n, ast.Call) and isinstance(n.func, ast.Attribute) and n.func.attr == meth
+                    and isinstance(n.func.value, ast.Attribute) and n.func.value.attr == "_root"
+                    and _is_name(n.func.value.value, sslf) and n.args and isinstance(n.args[0], ast.Constant))
+        if body and isinstance(body[0], ast.If):
+            g = body[0]
+            if not (root_call(g.test, "get_attr") and not g.orelse and len(g.body) == 1
+                    and isinstance(g.body[0], ast.Return) and g.body[0].value is None):
+                raise ExtractError("%s: the leading if is not `if self._root.get_attr(<a>): return`" % sub.name)
+            keep_attr = g.test.args[0].value
+            k = 1
+        local = {}
+        sets = []
+        for st2 in body[k:]:
+            if isinstance(st2, ast.Assign) and len(st2.targets) == 1 and isinstance(st2.targets[0], ast.Name):
+                local[st2.targets[0].id] = st2.value
+                continue
+            if isinstance(st2, ast.Expr) and root_call(st2.value, "set_attr") and len(st2.value.args) == 2:
+                sets.append(st2.value)
+                continue
+            raise ExtractError("%s: unexpected statement" % sub.name)
+        if len(sets) != 1:
+            raise ExtractError("%s: expected exactly one self._root.set_attr(...)" % sub.name)
+        attr = sets[0].args[0].value
+        val = sets[0].args[1]
+        if isinstance(val, ast.Name) and val.id in local:
+            val = local[val.id]
+        if attr not in HEADER_ATTR or (keep_attr is not None and keep_attr != attr):
+            raise ExtractError("%s: sets / tests an attribute that is not format, version or id" % sub.name)
+        want = {"format": lambda x: _is_name(x, "FILE_FORMAT"), "version": lambda x: _is_name(x, "HDF_FF_VERSION"),
+                "id": lambda x: isinstance(x, ast.Attribute) and x.attr == "create_id"}[attr]
+        if not _mentions(val, want):
+            raise ExtractError("%s: the value written to %r is not built from the expected constant" % (sub.name, attr))
+        if _mentions(val, lambda x: isinstance(x, ast.BinOp) or isinstance(x, ast.Subscript)):
+            raise ExtractError("%s: the value written to %r is computed, not the constant itself" % (sub.name, attr))
+        steps.append((HEADER_ATTR[attr], keep_attr is not None))
+    return steps
+
+
 def extract(repo):
     path = os.path.join(repo, "nixio", "file.py")
     src = open(path, encoding="utf-8").read()
@@ -568,6 +634,7 @@ def extract(repo):
         raise ExtractError("_check_header: id test is not `if not util.is_uuid(self.id): raise RuntimeError`")
 
     init = _extract_init(cls)
+    header_steps = _extract_create_header(cls)
 
     # ---- render ------------------------------------------------------------------------
     L = []
@@ -627,6 +694,12 @@ def extract(repo):
     L.append("inductive InitStep where | checkHeader | setMode | ensureData | ensureMeta | ensureCreated | ensureUpdated")
     L.append("  deriving DecidableEq, Repr")
     L.append("def initTail : List InitStep := " + lean_list(init["tail"]))
+    L.append("/-- `_create_header`: the `_set_<x>` calls in source order: the attribute written (format ← FILE_FORMAT,")
+    L.append("version ← HDF_FF_VERSION, id ← util.create_id()) and whether an existing value is kept -/")
+    L.append("inductive HeaderAttr where | format | version | id")
+    L.append("  deriving DecidableEq, Repr")
+    L.append("def createHeaderSteps : List (HeaderAttr × Bool) := " + lean_list(
+        "(%s, %s)" % (a, "true" if k else "false") for a, k in header_steps))
     L.append("")
     L.append("end Nix.Gen.Format")
     L.append("")
